@@ -84,7 +84,6 @@ def malformed(ctx):
     # the four walkers on buffers that are NOT valid encodings: C13 says nothing about them, the offset-faithful model
     # (SetWalk.v) does -- value, error or panic; this stream only feeds the correspondence tie
     r = ctx.rng
-    ctx.open_classes.add('skipped-allocation')
     small = [(a, b) for a, b, _ in ctx.trials if 8 <= len(gen.enc(a)) <= 80 and len(gen.enc(b)) <= 80]
     for a, b in r.sample(small, min(len(small), ctx.scale(120, 3000))):
         ea, eb = gen.enc(a), gen.enc(b)
@@ -104,13 +103,6 @@ def malformed(ctx):
         for _ in range(4):
             op = r.choice(['array_intersection', 'array_except', 'array_overlap'])
             ctx.add('%s %s %s' % (op, gen.hexarg(r.choice(mutants(ctx, ea, 6))), gen.hexarg(r.choice(mutants(ctx, eb, 6)))), kind='malformed')
-
-
-def classify(ctx, c, io, mo):
-    # the harness process died on a corrupt buffer (allocation driven by a corrupted count): not judged
-    if c.kind == 'malformed' and io.startswith('abort:'):
-        return 'skipped-allocation'
-    return None
 
 
 def judge(ctx):
@@ -170,6 +162,7 @@ def judge(ctx):
     from .. import core
     lines = ['d%d array_distinct %s' % (k, d[3:]) for k, (d, _) in enumerate(again)]
     out = core.run_cases(core.HARNESS_BIN, lines, 'C13-idem')
+    core.require_outcomes(out, ['d%d' % k for k in range(len(again))], 'C13 idempotence re-run')
     for k, (d, case) in enumerate(again):
         if out.get('d%d' % k) != d:
             ctx.violate('distinct is not idempotent', case=case, observed=[d, out.get('d%d' % k)])
